@@ -49,6 +49,14 @@ Definition la_shape (negpow : bool) (op : binop) (a b : val) : option shape :=
   | Pow, Arr _ _ _, Num _ _ => None
   end.
 
+Inductive opt_rel {A B} (R : A -> B -> Prop) : option A -> option B -> Prop :=
+| OR_none : opt_rel R None None
+| OR_some : forall a b, R a b -> opt_rel R (Some a) (Some b).
+
+Inductive opt_pred {A} (P : A -> Prop) : option A -> Prop :=
+| OP_none : opt_pred P None
+| OP_some : forall a, P a -> opt_pred P (Some a).
+
 Section Spec.
   Variable negpow : bool.
   Variable inv : inv_oracle.
@@ -102,7 +110,52 @@ Section Spec.
   | LC_cons : forall acc (o : bool) v mid rest r,
       la_value (if o then opt else opf) acc v mid -> la_chain opt opf mid rest r ->
       la_chain opt opf acc ((o, v) :: rest) r.
+
+  (* the power chain as eval_power folds it, right to left; None is a "-" between two operands *)
+  Inductive la_power_loop : list (option val) -> val -> val -> Prop :=
+  | LP_nil : forall r, la_power_loop [] r r
+  | LP_minus : forall rest res r, la_power_loop rest (neg_val res) r -> la_power_loop (None :: rest) res r
+  | LP_pow : forall w rest res mid r,
+      la_value Pow w res mid -> la_power_loop rest mid r -> la_power_loop (Some w :: rest) res r.
+  Definition la_power (items : list (option val)) (r : val) : Prop :=
+    match rev items with
+    | Some last :: rest => la_power_loop rest last r
+    | _ => False
+    end.
+
+  (* big-step reading of a formula tree in which every operator application is a linear-algebra step *)
+  Inductive la_eval : expr -> val -> Prop :=
+  | LE_val : forall v, la_eval (EVal v) v
+  | LE_paren : forall e v, la_eval e v -> la_eval (EParen e) v
+  | LE_neg : forall k e v r,
+      la_eval e v -> la_value Mul v (Num KInt (if Nat.even k then c1 else cneg c1)) r -> la_eval (ENeg k e) r
+  | LE_arr : forall items vs r,
+      Forall2 la_eval items vs -> eval_array vs = Ret r -> la_eval (EArr items) r
+  | LE_pow : forall items vs r,
+      Forall2 (opt_rel la_eval) items vs ->
+      la_power vs r -> la_eval (EPow items) r
+  | LE_prod : forall first rest f vs r,
+      la_eval first f -> Forall2 (fun p q => fst p = fst q /\ la_eval (snd p) (snd q)) rest vs ->
+      la_chain Mul Div f vs r -> la_eval (EProd first rest) r
+  | LE_sum : forall first rest f vs r,
+      la_eval first f -> Forall2 (fun p q => fst p = fst q /\ la_eval (snd p) (snd q)) rest vs ->
+      la_chain Add Sub f vs r -> la_eval (ESum first rest) r.
 End Spec.
+
+(* formula trees inside the property's quantifier: variables and numbers are proper values, array literals have
+   at least two items (so that every array that reaches an operator has more than one element) *)
+Inductive wf_expr : expr -> Prop :=
+| WF_val : forall v, proper v -> wf_expr (EVal v)
+| WF_paren : forall e, wf_expr e -> wf_expr (EParen e)
+| WF_neg : forall k e, wf_expr e -> wf_expr (ENeg k e)
+| WF_arr : forall items, (2 <= length items)%nat -> Forall wf_expr items -> wf_expr (EArr items)
+| WF_pow : forall items, Forall (opt_pred wf_expr) items -> wf_expr (EPow items)
+| WF_prod : forall first rest, wf_expr first -> Forall (fun p => wf_expr (snd p)) rest -> wf_expr (EProd first rest)
+| WF_sum : forall first rest, wf_expr first -> Forall (fun p => wf_expr (snd p)) rest -> wf_expr (ESum first rest).
+
+(* Python's number ** number yields a number *)
+Definition spow_numeric (spow : spow_oracle) : Prop :=
+  forall ka a kb b r, spow ka a kb b = Ret r -> exists k c, r = Num k c.
 
 (* entrywise equality of data up to == on Q, and the inverse-oracle hypothesis *)
 Definition data_eq (a b : list C) : Prop := Forall2 (fun x y => cre x == cre y /\ cim x == cim y) a b.
